@@ -56,7 +56,7 @@ def gen_value(d: D, cmd: str, pname: str) -> Any:
     if pname == "task_ids":
         return ["ints", [d.pick([0, 0, 1, 1, 2, 3, 4, 7, -1]) for _ in range(d.i(0, 3))]]
     if pname == "msg":
-        return ["str", d.pick(["bye", "x", "stop-it"])]
+        return ["str", d.pick(["bye", "x", "stop-it", "a\tb", "x\u00a0y", "", ""])]
     return ["int", d.i(0, 3)]
 
 
@@ -135,8 +135,21 @@ def render(item: dict, table: dict) -> str:
                 opts.extend([flag or long, "7" if typ == "int" else "decoy"])     # given twice: the last one counts
             opts.append(flag or long)
             opts.extend(texts)
-    # options first or last -- both are legal for argparse; negative numbers after options stay positionals
+    # options first or last -- both are legal for argparse; negative numbers after options stay positionals.
+    # An empty string can only be sent as an empty token, i.e. not at the end of the line (the session strips the line).
+    if "" in opts and pos:
+        return " ".join(parts + opts + pos)
     return " ".join(parts + opts + pos) if item.get("short") else " ".join(parts + pos + opts)
+
+
+def expressible(item: dict, table: dict) -> dict:
+    """Removes an empty-string option value where no positional follows it (it cannot be put on a command line)."""
+    vals = item["vals"]
+    if any(t == "str" and v == "" for t, v in vals.values()):
+        has_pos = any(k in ("pos",) or (k in ("varpos", "optpos") and p in vals and vals[p][1] not in ([], None)) for p, k in table[item["cmd"]])
+        if not has_pos:
+            item = dict(item, vals={p: tv for p, tv in vals.items() if not (tv[0] == "str" and tv[1] == "")})
+    return item
 
 
 def meant_kwargs(item: dict) -> Dict[str, Any]:
@@ -322,6 +335,7 @@ class C17Engine(Engine):
             if not any(v["clause"] == clause for v in viol):
                 viol.append({"props": ["C17"], "clause": clause, "detail": detail[:400], "opno": 0})
 
+        case = dict(case, items=[expressible(it, table) if it["t"] == "cmd" else it for it in case["items"]])
         for it in case["items"]:
             if it["t"] == "cmd":
                 if it["cmd"] in ("apply", "map", "starmap", "doublestarmap") and any(v[0] == "lit" for v in it["vals"].values()):
